@@ -140,8 +140,10 @@ Definition check (c : qcase) : string :=
       let A := m9mul (entries r) (m9mul (entries u) (entries b)) in
       let kap := kappa_inf A in
       let tol := Qred (c * kap * U53) in
+      (* class tag: for kappa_inf >= 1e4 the explicit 3x3 inverse is known to exceed the 64 kappa u budget *)
+      let tag := if Qle_bool (10000 # 1) kap then "-kappa>=1e4" else "" in
       let s := rcmp h mn false m o tol in
-      if negb (String.eqb s "") then s
+      if negb (String.eqb s "") then s ++ tag
       else match o with
            | OutVec hx hy hz hsc _ =>
                (* residual 2 pi R UB hkl - Q in physical terms, with the implementation's hkl *)
@@ -153,7 +155,7 @@ Definition check (c : qcase) : string :=
                let rz := Qred (Qred (two_pi * sA * az) - Qred (v_z q * v_sc q)) in
                let nq := Qred ((Qabs (v_x q) + Qabs (v_y q) + Qabs (v_z q)) * v_sc q) in
                if Qle_bool (Qabs rx) (tol * nq) && Qle_bool (Qabs ry) (tol * nq) && Qle_bool (Qabs rz) (tol * nq)
-               then "" else "residual"
+               then "" else "residual" ++ tag
            | _ => ""
            end
   | KSplit v hkl rejoined =>
